@@ -65,6 +65,7 @@ struct Ctx {
   HangPolicy hang = HANG_VIOLATION;
   std::map<int, std::vector<int>> recorded;   // decisions recorded by finished operations
   std::string hang_cls_prefix;
+  void (*hang_cb)(int kind, const char *detail) = nullptr;   // if set, replaces the default reporting (must not return)
 };
 extern Ctx g_ctx;
 
